@@ -65,82 +65,167 @@ func quoteASCII(s string) string {
 	return q[1 : len(q)-1]
 }
 
-// goArgListOK: a conservative hand-written judgement of "the text between the parentheses is a Go
-// argument list" for the strings this check generates (string literals, identifiers, selectors, commas,
-// parentheses, spaces). Returns false only for texts that are certainly not an argument list.
+// goArgListOK: a hand-written recursive-descent recogniser of "the text between the parentheses is a Go call
+// argument list" for the alphabets this check generates (identifiers made of letters, string literals without
+// escapes, '.', ',', parentheses, spaces):
+//
+//	ArgList := [ Expr { ',' Expr } [ '...' ] [ ',' ] ]
+//	Expr    := Primary { '.' ident | '.' '(' Type ')' | '(' ArgList ')' }
+//	Primary := ident | string | '(' Expr ')'
+//	Type    := ident { '.' ident } | '(' Type ')'
 func goArgListOK(a string) bool {
-	depth := 0
-	inStr := false
-	prev := byte(',') // last significant byte: ',' start / after comma, 'x' operand, '.' selector dot
-	for i := 0; i < len(a); i++ {
-		c := a[i]
-		if inStr {
-			if c == '\\' {
-				i++
-				continue
-			}
-			if c == '"' {
-				inStr = false
-				prev = 'x'
-			}
-			continue
-		}
-		switch {
-		case c == '"':
-			if prev == 'x' || prev == '.' {
-				return false
-			}
-			inStr = true
-		case c == ' ':
-		case c == ',':
-			if prev != 'x' {
-				return false
-			}
-			prev = ','
-		case c == '(':
-			depth++
-			if prev == '.' {
-				return false
-			}
-			prev = '('
-		case c == ')':
-			depth--
-			if depth < 0 {
-				return false
-			}
-			if prev == ',' || prev == '.' {
-				return false
-			}
-			// "()" is a call without arguments only after an operand; "(())" is not an expression
-			if prev == '(' && !(i >= 2 && isIdentByte(a[i-2])) {
-				return false
-			}
-			prev = 'x'
-		case c == '.':
-			if prev != 'x' {
-				return false
-			}
-			prev = '.'
-		case c >= 0x80:
-			// é is a letter: identifier character
-			if prev == 'x' && i > 0 && (a[i-1] == ' ' || a[i-1] == '"' || a[i-1] == ')') {
-				return false
-			}
-			prev = 'x'
-		default:
-			if prev == 'x' && i > 0 && (a[i-1] == ' ' || a[i-1] == '"' || a[i-1] == ')') {
-				return false
-			}
-			prev = 'x'
-		}
-	}
-	if inStr || depth != 0 {
+	p := &argParser{s: a}
+	if !p.argList() {
 		return false
 	}
-	if strings.TrimSpace(a) == "" {
+	p.ws()
+	return p.i == len(p.s)
+}
+
+type argParser struct {
+	s string
+	i int
+}
+
+func (p *argParser) ws() {
+	for p.i < len(p.s) && p.s[p.i] == ' ' {
+		p.i++
+	}
+}
+
+func (p *argParser) peek() byte {
+	p.ws()
+	if p.i < len(p.s) {
+		return p.s[p.i]
+	}
+	return 0
+}
+
+func isArgIdentByte(c byte) bool { return c >= 0x80 || c == '_' || isIdentByte(c) }
+
+func (p *argParser) ident() bool {
+	p.ws()
+	j := p.i
+	for j < len(p.s) && isArgIdentByte(p.s[j]) {
+		j++
+	}
+	if j == p.i || (p.s[p.i] >= '0' && p.s[p.i] <= '9') {
+		return false
+	}
+	p.i = j
+	return true
+}
+
+func (p *argParser) typ() bool {
+	if p.peek() == '(' {
+		p.i++
+		if !p.typ() || p.peek() != ')' {
+			return false
+		}
+		p.i++
 		return true
 	}
-	return prev == 'x'
+	if !p.ident() {
+		return false
+	}
+	for p.peek() == '.' {
+		save := p.i
+		p.i++
+		if !p.ident() {
+			p.i = save
+			return false
+		}
+	}
+	return true
+}
+
+func (p *argParser) primary() bool {
+	switch c := p.peek(); {
+	case c == '"':
+		j := p.i + 1
+		for j < len(p.s) && p.s[j] != '"' {
+			if p.s[j] == '\\' || p.s[j] == '\n' {
+				return false
+			}
+			j++
+		}
+		if j >= len(p.s) {
+			return false
+		}
+		p.i = j + 1
+		return true
+	case c == '(':
+		p.i++
+		if !p.expr() || p.peek() != ')' {
+			return false
+		}
+		p.i++
+		return true
+	}
+	return p.ident()
+}
+
+func (p *argParser) expr() bool {
+	if !p.primary() {
+		return false
+	}
+	for {
+		switch p.peek() {
+		case '.':
+			// not "..." (handled by the argument list)
+			if strings.HasPrefix(p.s[p.i:], "...") {
+				return true
+			}
+			p.i++
+			if p.peek() == '(' {
+				p.i++
+				if !p.typ() || p.peek() != ')' {
+					return false
+				}
+				p.i++
+				continue
+			}
+			if !p.ident() {
+				return false
+			}
+		case '(':
+			p.i++
+			if !p.argList() || p.peek() != ')' {
+				return false
+			}
+			p.i++
+		default:
+			return true
+		}
+	}
+}
+
+func (p *argParser) argList() bool {
+	c := p.peek()
+	if c == 0 || c == ')' {
+		return true
+	}
+	for {
+		if !p.expr() {
+			return false
+		}
+		p.ws()
+		if strings.HasPrefix(p.s[p.i:], "...") {
+			p.i += 3
+			if p.peek() == ',' {
+				p.i++
+			}
+			c := p.peek()
+			return c == 0 || c == ')'
+		}
+		if p.peek() != ',' {
+			return true
+		}
+		p.i++
+		if c := p.peek(); c == 0 || c == ')' {
+			return true // trailing comma
+		}
+	}
 }
 
 // literalArgs: the argument list consists of string literals only (symbols that exist by construction).
@@ -194,7 +279,7 @@ type c03kind struct {
 
 var c03kinds = []c03kind{
 	{"lit", "lit"}, {"lit-sp", " x "}, {"pct", "%%"},
-	{"ref-int", "%rInt%"}, {"ref-nil", "%rNil%"}, {"ref-bool", "%rBool%"}, {"ref-float", "%rFloat%"}, {"ref-str", "%rStr%"}, {"ref-uint", "%rUint%"}, {"ref-multi", "%rMulti%"},
+	{"ref-int", "%rInt%"}, {"ref-nil", "%rNil%"}, {"ref-bool", "%rBool%"}, {"ref-float", "%rFloat%"}, {"ref-str", "%rStr%"}, {"ref-uint", "%rUint%"}, {"ref-multi", "%rMulti%"}, {"ref-bigfloat", "%rBigFloat%"}, {"ref-tinyfloat", "%rTinyFloat%"}, {"ref-negint", "%rNegInt%"},
 	{"fn-ok", `%fnStr("q", 2)%`}, {"fn-int", `%fnInt()%`}, {"fn-nil", `%fnNil()%`}, {"fn-fail", `%fnE("fail")%`},
 	{"env-hit", `%env("C03_SET")%`}, {"env-miss", `%env("C03_UNSET")%`}, {"env-default", `%env("C03_UNSET", "dflt")%`},
 	{"envint-ok", `%envInt("C03_INT")%`}, {"envint-bad", `%envInt("C03_SET")%`}, {"envint-default", `%envInt("C03_UNSET", 81)%`},
@@ -206,7 +291,7 @@ var c03modelEnv = map[string]string{"C03_SET": "envvalue", "C03_INT": "-12"}
 
 func c03seqBase() *Cfg {
 	c := &Cfg{Meta: stdMeta()}
-	c.Params = []Param{{"rInt", 5}, {"rNil", nil}, {"rBool", false}, {"rFloat", 2.5}, {"rStr", "s%%t"}, {"rUint", uint64(math.MaxUint64)}, {"rMulti", "<%rInt%|%rStr%>"}}
+	c.Params = []Param{{"rInt", 5}, {"rNil", nil}, {"rBool", false}, {"rFloat", 2.5}, {"rStr", "s%%t"}, {"rUint", uint64(math.MaxUint64)}, {"rMulti", "<%rInt%|%rStr%>"}, {"rBigFloat", 1e21}, {"rTinyFloat", 0.00001}, {"rNegInt", -9223372036854775807}}
 	return c
 }
 
@@ -326,6 +411,52 @@ func init() {
 					}
 					if i == 0 {
 						c.Sample(map[string]any{"strings": part[:8], "packed_params": len(ents)})
+					}
+				})
+			}
+			// (1b) argument texts of a registered function: every string of length <= A over {(, ), ", a, comma, space, .}
+			// between the parentheses of %a(...)%, alone and inside a multi-chunk pattern
+			A := 4
+			if !w.Env.Quick() {
+				A = 5
+			}
+			var argTexts []string
+			words([]string{"(", ")", `"`, "a", ",", " ", "."}, A, func(x string) { argTexts = append(argTexts, x) })
+			for i := 0; i < len(argTexts); i += 500 {
+				j := i + 500
+				if j > len(argTexts) {
+					j = len(argTexts)
+				}
+				part := argTexts[i:j]
+				w.Case(fmt.Sprintf("fnargs/%d-%d", i, j-1), func(c *C) {
+					c.Add("evaluations_extra", int64(2*len(part)))
+					for _, at := range part {
+						for _, pat := range []string{"%a(" + at + ")%", "x%a(" + at + ")%%p%"} {
+							c.Distinct("all", "f:"+pat)
+							c.Distinct("nontrivial", "f:"+pat)
+							cfg := c03universe()
+							cfg.Params = append(cfg.Params, Param{"x", pat})
+							files := []File{{"c.yaml", cfg.YAML()}}
+							v, frag := c03verdict(pat, declared, fns)
+							c.Count("fnargs_" + v)
+							for _, flags := range [][]string{nil, {"--stub"}} {
+								br := w.Build(files, flags...)
+								if br.Panic != "" {
+									c.Violation("panic", fmt.Sprintf("tool panicked on parameter value %q:\n%s", pat, br.Panic), FilesMap(files), nil)
+									continue
+								}
+								switch v {
+								case "reject":
+									if br.Exit == 0 {
+										c.Violation("malformed-accepted:function-arguments", fmt.Sprintf("parameter value %q (flags %v) must be rejected (%s) but was accepted", pat, flags, frag), FilesMap(files), nil)
+									}
+								case "accept":
+									if br.Exit != 0 {
+										c.Violation("valid-rejected:function-arguments", fmt.Sprintf("parameter value %q (flags %v) must be accepted:\n%s", pat, flags, strings.Join(ErrorLines(br.Out), "\n")), FilesMap(files), nil)
+									}
+								}
+							}
+						}
 					}
 				})
 			}
